@@ -1388,8 +1388,8 @@ impl Replayer {
             }
         }
         let before = g0.verif_state();
-        for (what, b) in variants {
-            let m = match MlsMessage::from_bytes(&b) {
+        for (what, b) in variants.iter() {
+            let m = match MlsMessage::from_bytes(b) {
                 Ok(m) => m,
                 Err(_) => { self.w.bump("tamper_rejected_by_decoder"); continue; }
             };
@@ -1415,6 +1415,41 @@ impl Replayer {
             }
             if !self.viols.is_empty() {
                 return;
+            }
+        }
+        // The same modified copies offered to members that already hold the authentic message: the receiver itself
+        // after accepting it (re-delivery) and, for a proposal, its author and earlier receivers (it is in their cache).
+        let mut holders: Vec<(String, mls_rs::Group<Cfg>)> = vec![];
+        {
+            let mut g1 = g0.clone();
+            let o = orig.clone();
+            if std::panic::catch_unwind(std::panic::AssertUnwindSafe(|| g1.process_incoming_message(o).is_ok())).unwrap_or(false) {
+                holders.push((format!("{p} (after accepting the authentic copy)"), g1));
+            }
+        }
+        if a == "DeliverProposal" {
+            let r = self.w.prop_refs.get(u(args, "prop") as usize - 1).cloned().unwrap_or_default();
+            for (q, party) in self.w.parties.iter() {
+                if q == p || r.is_empty() { continue; }
+                if let Some(g) = party.group.as_ref() {
+                    if g.get_cached_proposals().iter().any(|c| c.proposal_ref().as_slice() == r.as_slice()) {
+                        holders.push((format!("{q} (holds the proposal already)"), g.clone()));
+                        if holders.len() >= 3 { break; }
+                    }
+                }
+            }
+        }
+        for (who, gh) in holders.iter() {
+            for (what, b) in variants.iter() {
+                let m = match MlsMessage::from_bytes(b) { Ok(m) => m, Err(_) => continue };
+                if m.to_bytes().map(|x| x == bytes).unwrap_or(false) { continue; }
+                let mut g = gh.clone();
+                match std::panic::catch_unwind(std::panic::AssertUnwindSafe(|| g.process_incoming_message(m))) {
+                    Err(_) => viol!(self, ["C03"], "tamper-panic", "{who}: processing a modified {a} message ({what}) panicked"),
+                    Ok(Ok(res)) => viol!(self, ["C03"], "tamper-accepted", "{who}: a modified copy of an authentic message it already holds ({a}, {what}) was accepted: {:?}", format!("{res:?}").chars().take(120).collect::<String>()),
+                    Ok(Err(_)) => self.w.bump("tamper_rejected_by_holder"),
+                }
+                if !self.viols.is_empty() { return; }
             }
         }
         // insider forgeries of this commit (structurally invalid, consistently signed by its author)
